@@ -1,7 +1,7 @@
 """PYD operations on the real code: a pydantic model built from the line, then constructions / assignments.
 
  PYD \t config(va=1,ctx=1,al=1: identical annotation specs share one annotation object) \t F|name|base|spec ... \t N|order|v;v;v \t S|field|value
-   base: nd | nd=0:float32+0:int8 (np.ndarray[Any, np.dtype[...]]) | npt=0:float32 (npt.NDArray[...]) | torch | jax | int
+   base: nd | nd=0:float32+0:int8 (np.ndarray[Any, np.dtype[A | B]]) | ndu=... (np.ndarray[Any, np.dtype[A] | np.dtype[B]]) | npt=0:float32 (npt.NDArray[...]) | torch | jax | int
    spec: cls,opt,shape | -            (opt 1 = `| None`)
    N: construct with keywords in the order given by the permutation `2.0.1`
 """
@@ -35,6 +35,12 @@ def _base_src(base: str, ns: dict) -> str:
             ns[f"ST_{id(t)}"] = t
         inner = " | ".join(f"ST_{id(t)}" for t in ts)
         return f"np.ndarray[typing.Any, np.dtype[{inner}]]"
+    if kind == "ndu":
+        # the union written one level up: np.ndarray[Any, np.dtype[A] | np.dtype[B]]
+        ts = [_np_scalar(c) for c in arg.split("+")]
+        for t in ts:
+            ns[f"ST_{id(t)}"] = t
+        return "np.ndarray[typing.Any, " + " | ".join(f"np.dtype[ST_{id(t)}]" for t in ts) + "]"
     if kind == "npt":
         t = _np_scalar(arg)
         ns[f"ST_{id(t)}"] = t
